@@ -225,6 +225,11 @@ class Decoder(Coder):
         :param reuse: Is this bitmap for reuse?
         :return: The bitmap as a list of 0 and 1.
         """
+        # A bitmap whose delayed replication count is zero has no bits and defines
+        # nothing. Only a compiled template gets here in that case.
+        if state.n_031031 == 0:
+            return []
+
         # First get all the bit values for the bitmap
         if state.is_compressed:
             bitmap = state.decoded_values_all_subsets[0][-state.n_031031:]
